@@ -202,6 +202,15 @@ def run_case(case, R):
                     judge(R, fname, f"{lab} a={a.tolist()} b={b.tolist()}", lambda: getattr(numpoly, fname)(pa, pb), lambda: npf(na, nb), tags,
                           strict_kind=fname in BOOL_FUNCS)
                     judge(R, fname, f"[numpy]{lab} a={a.tolist()} b={b.tolist()}", lambda: npf(pa, pb), lambda: npf(na, nb), tags, strict_kind=fname in BOOL_FUNCS)
+            # tolerance arguments (isclose is asymmetric in its operands: atol + rtol*|b|)
+            for kw in ({"rtol": 0.4, "atol": 0}, {"rtol": 0.5}, {"rtol": 0, "atol": 1.5}, {"rtol": 0.25, "atol": 0.5}, {"equal_nan": True}):
+                for fname in ("isclose", "allclose"):
+                    npf = getattr(numpy, fname)
+                    for lab, pa, pb, na, nb in (("(a,b)", p, q, a, b), ("(b,a)", q, p, b, a), ("(a,4)", p, 4, a, 4), ("(2,a)", 2, p, 2, a)):
+                        judge(R, fname, f"{lab} {kw} a={a.tolist()} b={b.tolist()}", lambda: getattr(numpoly, fname)(pa, pb, **kw), lambda: npf(na, nb, **kw),
+                              tags + ["tolerances"], strict_kind=True)
+                        judge(R, fname, f"[numpy]{lab} {kw} a={a.tolist()} b={b.tolist()}", lambda: npf(pa, pb, **kw), lambda: npf(na, nb, **kw),
+                              tags + ["tolerances"], strict_kind=True)
             e = (numpy.abs(b) % 3).astype(int)
             judge(R, "power", f"({a.tolist()}, {e.tolist()})", lambda: numpoly.power(p, e), lambda: numpy.power(a, e), tags + ["integer_exponent"])
             if kind == "f":
